@@ -1,5 +1,5 @@
 """One function per property: builds, runs, merges, finishes. Signature (scratch, tier, replay, t0) -> exit code."""
-import os, json, subprocess, sys
+import os, json, subprocess, sys, re
 import driver as D
 
 MC_ASSUME = ["go toolchain and runtime", "verif/mc engines (sched, report)", "the reference model / oracle written for this check"]
@@ -243,3 +243,78 @@ def C07(sc, tier, replay, t0):
         assumptions=CODEC_ASSUME + ["the wildcard matches any one path segment (array items, map keys and field names alike)",
                                     "specs ending in the array wildcard are included; whether an excluded array item disappears or is emptied is judged by the pruned reference value (items keep their place, emptied)"],
         trusted_base=MC_ASSUME + CODEC_TRUST + WIRE_TRUST)
+
+
+def build_c17d2(sc, gen, race=False):
+    mod = D.make_module(sc, gen, "c17d2", name="c17d2-%s-%s" % (gen, "race" if race else "coop"))
+    if race:
+        # free-running pass: real sync; only the export file (and the unused shim package, which the harness imports)
+        repl = {}
+        od = D.overlay_add(sc, gen, repl, "d2/verif_export.go", os.path.join(D.VERIF, "overlay", "d2", "verif_export.go"), name="ov17r")
+        shim = os.path.join(od, "verifsync.go")
+        open(shim, "w").write(open(os.path.join(D.VERIF, "overlay", "verifsync", "verifsync.go")).read())
+        repl[os.path.join(D.GENS[gen]["dir"], "verifsync", "verifsync.go")] = shim
+    else:
+        files = ["d2/lazymap/lazymap.go", "d2/client.go"]
+        if re.search(r'(?m)^\s*"sync"\s*$', open(os.path.join(D.GENS[gen]["dir"], "d2/serviceUris.go")).read()):
+            files.append("d2/serviceUris.go")
+        od, repl = D.overlay_sync(sc, gen, files, name="ov17")
+        D.overlay_add(sc, gen, repl, "d2/verif_export.go", os.path.join(D.VERIF, "overlay", "d2", "verif_export.go"), name="ov17")
+    ov = D.write_overlay(od, repl, name="overlay-%s.json" % ("race" if race else "coop"))
+    return D.go_build(mod, os.path.join(mod, "h"), overlay=ov, race=race)
+
+
+def C17(sc, tier, replay, t0):
+    """C17: cooperative exhaustive interleaving exploration (deciding step) of handler+client and of the D2
+    resolver, plus a free-running pass of the same bodies under the race detector (supplementary detector)."""
+    reports = []
+    universe = "resources-quick"
+    gens = ["v2", "root"]
+    rp = None
+    if replay:
+        rp = json.load(open(replay)).get("replay") or {}
+        gens = [rp.get("gen", "v2")]
+    race_runs = []
+    for gen in gens:
+        env = {"VERIF_UNIVERSE": universe}
+        if not rp or rp.get("part") == "C17":
+            binary = D.build_with_bindings(sc, gen, "wire", universe, resources=True)
+            if rp:
+                return subprocess.run([binary, "-gen", gen, "-replay", replay], env=dict(D.goenv(), **env)).returncode
+            reports += D.run_shards(binary, gen, tier, max(1, D.NCPU // 2 - 1), os.path.join(sc.dir, "out"), extra_args=["-part", "C17"], env=env,
+                                    deadline=(3000 if tier == "thorough" else 600), tag="-wire")
+        if not rp or rp.get("scenario"):
+            binary = build_c17d2(sc, gen)
+            if rp:
+                return subprocess.run([binary, "-gen", gen, "-replay", replay], env=D.goenv()).returncode
+            reports += D.run_shards(binary, gen, tier, 5, os.path.join(sc.dir, "out"), deadline=(3000 if tier == "thorough" else 600), tag="-d2")
+        if rp:
+            continue
+        # supplementary: free-running under the race detector
+        rb_wire = D.build_with_bindings(sc, gen, "wire-race" if False else "wire", universe, resources=True, race=True) if tier == "thorough" or True else None
+        rb_d2 = build_c17d2(sc, gen, race=True)
+        for gmp in ["1", "2", "16"]:
+            for name, cmd in (("handler+client", [rb_wire, "-gen", gen, "-part", "C17race", "-tier", tier]), ("d2 resolver", [rb_d2, "-gen", gen, "-part", "race"])):
+                e = dict(D.goenv(), GOMAXPROCS=gmp, GORACE="halt_on_error=0", **env)
+                p = subprocess.run(cmd, env=e, stdout=subprocess.PIPE, stderr=subprocess.STDOUT, text=True)
+                races = p.stdout.count("WARNING: DATA RACE")
+                race_runs.append({"gen": gen, "target": name, "GOMAXPROCS": int(gmp), "races": races, "exit": p.returncode})
+                if races or p.returncode not in (0, 66):
+                    site = "unknown"
+                    m = re.search(r"(?:restli|restlicodec|d2|fnv1a|restlidata)[\w/]*/[\w.]+\.go:\d+", p.stdout)
+                    if m:
+                        site = m.group(0)
+                    logp = os.path.join(D.VERIF, "evidence", "replay", "C17-race-%s-%s.log" % (gen, name.split()[0]))
+                    os.makedirs(os.path.dirname(logp), exist_ok=True)
+                    open(logp, "w").write(p.stdout[:200000])
+                    reports.append({"gen": gen, "sub": {}, "failures": [{"sig": "%s race %s at %s" % (gen, name, site),
+                                    "detail": "the race detector reported %d data race(s) in the free-running pass (GOMAXPROCS=%s); first report:\n%s" % (races, gmp, p.stdout[:3000]),
+                                    "replay": {"gen": gen, "race_log": logp}}], "fail_count": 1})
+    merged = D.merge_reports(reports)
+    return D.finish("C17", tier, "model_checking", merged, t0,
+        rule="deciding step: stateless DFS over all schedules (cooperative scheduler) of (a) pairs (all interleavings) and triples (preemption bound 2 / 3) of mixed requests - get, create, update, delete, finder, action, batch_get, error and status-override outcomes, one ErrorResponse shared by all requests - against ONE handler and ONE client, at the harness-owned points round-trip entry/exit, PreRequest, resource entry/exit, PostRequest; each request's observations must equal those of the same request in isolation; (b) 2-3 concurrent D2 resolutions plus the cluster's single updater thread on one client, all interleavings at the lazy map's sync operations (shimmed) and RNG draws; states = request combinations / scenarios, transitions = scheduler steps, executions = schedules run on the real code. Supplementary: the same bodies free-running under the race detector (GOMAXPROCS 1, 2, 16); a race report is a violation, silence is not counted as coverage",
+        assumptions=["unsynchronised accesses between two scheduling points cannot be interleaved by a cooperative scheduler and weak-memory effects are not modelled: those are only detected (soundly, not completely) by the supplementary -race pass",
+                     "the custom-typeref registry is written at init time only and read through sync.Map; it is not explored separately",
+                     "a cluster's ZooKeeper events are consumed by one goroutine (waitForUriUpdates), so scenarios have at most one updater thread"],
+        trusted_base=MC_ASSUME + WIRE_TRUST + ["verifsync shim", "overlay/d2/verif_export.go", "Go race detector (supplementary)"],
+        extra_cov={"race_pass": race_runs})
